@@ -284,7 +284,9 @@ func (s *Solver) CheckT(limitMs int) string {
 			continue
 		}
 		sent++
-		go func(i int, rd *bufio.Reader, pname string, isCvc5 bool) { ch <- ans{i, readVerdictFrom(rd, pname, isCvc5)} }(i, p.out, p.name, p.argv[0] == "cvc5")
+		go func(i int, rd *bufio.Reader, pname string, isCvc5 bool) {
+			ch <- ans{i, readVerdictFrom(rd, pname, isCvc5)}
+		}(i, p.out, p.name, p.argv[0] == "cvc5")
 	}
 	res := "unknown"
 	got := map[int]string{}
